@@ -313,7 +313,8 @@ class ModelWorld:
             else:
                 for v in o.reshape(-1):
                     flat.append(("v", v.item()))
-        res = self.fallback.apply(name, out, ops, keypos, int_mod)
+        # (np.array: scalar draws come back as NumPy scalars, which do not support item assignment)
+        res = [np.array(r) for r in self.fallback.apply(name, out, ops, keypos, int_mod)]
         seen = {}
         for ent_ops, oi, idx, val in self.table.get(name, []):
             if val is not None and self._match(ent_ops, flat):
